@@ -176,6 +176,10 @@ def runHostile (c : CaseBlock) : IO Unit := do
   | _ => diffs := diffs ++ ["nor"]
   if !C11.monParse obs && obs matches .accepted _ then
     mons := mons ++ ["from_str accepted a machine that fails validation"]
+  -- a valid string parsed on the same thread right after the hostile one must still round-trip
+  match field c "canary" with
+  | some ("FAIL" :: why) => mons := mons ++ [s!"after this string a valid machine string no longer parses as before: {String.intercalate " " why}"]
+  | _ => pure ()
   let acc := match obs with | .accepted _ => "accept" | .rejected => "reject" | .panicked => "panic"
   report c diffs [kindTag c, st, acc] mons
 
